@@ -494,11 +494,12 @@ def subchecks(tier, seed):
                         shard_depth=4, bounds={"binary_operators": 3, "leaves": three, "variants": "full parentheses, spaced, names [z,y,x]"}))
         subs.append(Sub("expr-eq", drv_expr, {"eq": True, "k": 2, "kmin": 0, "leaves": LEAVES3, "variants": V[:2]},
                         shard_depth=4, bounds={"max_binary_operators_both_sides": 2, "leaves": three, "variants": "2 x head minus"}))
-        op, kl, lr = OPS[seed % 4], (seed // 4) % 3, LEAVES6[(seed // 12) % 6]
+        op, kl = OPS[seed % 4], (seed // 4) % 3
+        lr = [LEAVES6[(seed // 12) % 6], LEAVES6[(seed // 12 + 1) % 6]]
         subs.append(Sub("expr-seed-slice", drv_expr,
-                        {"eq": False, "k": 3, "leaves": LEAVES6, "variants": V[:1], "slice": (op, kl, [lr]), "neg": False},
+                        {"eq": False, "k": 3, "leaves": LEAVES6, "variants": V[:1], "slice": (op, kl, lr), "neg": False},
                         shard_depth=3, bounds={"binary_operators": 3, "leaves": six, "root_operator": op, "left_operators": kl,
-                                               "right_subtree_leaves": [lr if isinstance(lr, str) else lr[1]],
+                                               "right_subtree_leaves": [l if isinstance(l, str) else l[1].lower() for l in lr],
                                                "note": "VERIF_SEED-selected exhaustive slice of the thorough scope"}))
         subs.append(Sub("forms", drv_forms, {"pool": pool2, "n": 2, "nmin": 1, "namings": ["zyx", "spec-categorical"],
                                               "styles": ["min"], "values": [1, -2]},
